@@ -27,8 +27,10 @@ struct Case {
     r: [i32; 4],
     d: [i32; 2],
     op: BOp,
-    /// destination has a transform, a clip rect and an open layer (all must be ignored)
-    ctx: bool,
+    /// state that must be ignored: 0 none; 1 the destination has a transform, a clip rect and an
+    /// open layer; 2 the destination has a singular transform; 3 the *source* has a clip and an
+    /// open layer with content in it
+    ctx: u8,
 }
 
 fn op_str(o: BOp) -> String {
@@ -40,7 +42,7 @@ fn op_str(o: BOp) -> String {
 }
 
 fn case_str(c: &Case) -> String {
-    format!("sw={} sh={} dw={} dh={} r={},{},{},{} d={},{} op={} ctx={}", c.sw, c.sh, c.dw, c.dh, c.r[0], c.r[1], c.r[2], c.r[3], c.d[0], c.d[1], op_str(c.op), if c.ctx { 1 } else { 0 })
+    format!("sw={} sh={} dw={} dh={} r={},{},{},{} d={},{} op={} ctx={}", c.sw, c.sh, c.dw, c.dh, c.r[0], c.r[1], c.r[2], c.r[3], c.d[0], c.d[1], op_str(c.op), c.ctx)
 }
 
 fn src_pixels(w: i32, h: i32) -> Vec<u32> {
@@ -94,9 +96,17 @@ fn eval(c: &Case) -> Res {
         None => return Res::Skip,
     };
     let r = guard(|| {
-        let src = DrawTarget::from_vec(c.sw, c.sh, sp.clone());
+        let mut src = DrawTarget::from_vec(c.sw, c.sh, sp.clone());
         let mut dst = DrawTarget::from_vec(c.dw, c.dh, dp.clone());
-        if c.ctx {
+        if c.ctx == 2 {
+            dst.set_transform(&Transform::new(1., 2., 2., 4., 0., 0.));
+        }
+        if c.ctx == 3 {
+            src.push_clip_rect(IntRect::new(IntPoint::new(1, 0), IntPoint::new(c.sw, c.sh)));
+            src.push_layer(0.5);
+            src.fill_rect(0., 0., c.sw as f32, c.sh as f32, &Source::Solid(SolidSource { r: 0x40, g: 0x80, b: 0x20, a: 0xff }), &DrawOptions::new());
+        }
+        if c.ctx == 1 {
             dst.set_transform(&Transform::scale(2., 2.));
             dst.push_clip_rect(IntRect::new(IntPoint::new(0, 0), IntPoint::new(1, 1)));
             dst.push_layer(0.5);
@@ -108,7 +118,7 @@ fn eval(c: &Case) -> Res {
             BOp::Blend(m) => dst.blend_surface(&src, rect, p, m),
             BOp::Alpha(a) => dst.blend_surface_with_alpha(&src, rect, p, a),
         }
-        let layer_clean = if c.ctx { dst.verif_layer(0).map(|(_, px, _, _)| px.iter().all(|p| *p == 0)).unwrap_or(false) } else { true };
+        let layer_clean = if c.ctx == 1 { dst.verif_layer(0).map(|(_, px, _, _)| px.iter().all(|p| *p == 0)).unwrap_or(false) } else { true };
         (dst.get_data().to_vec(), src.get_data().to_vec(), layer_clean)
     });
     let (got, src_after, layer_clean) = match r {
@@ -186,7 +196,7 @@ impl Check for C15 {
         }
         let rc: Vec<i32> = (-1..=4).collect();
         let dc: Vec<i32> = if q { vec![-4, -2, -1, 0, 1, 2, 4] } else { (-4..=4).collect() };
-        run.bound("block-transfers", format!("{} size combinations x {}^4 src_rects x {}^2 dst points x {} operations, plus the same with transform+clip+layer set on the destination for dst in {{-1,0,1}}^2", shapes.len(), rc.len(), dc.len(), ops.len()));
+        run.bound("block-transfers", format!("{} size combinations x {}^4 src_rects x {}^2 dst points x {} operations, plus, for dst in {{-1,0,1}}^2, the same with transform+clip+layer set on the destination, with a singular transform on the destination, and with a clip and an open layer (with content) on the source", shapes.len(), rc.len(), dc.len(), ops.len()));
         run.par(shapes.len() * rc.len(), |si, l| {
             let (sw, sh, dw, dh) = shapes[si / rc.len()];
             let r0 = rc[si % rc.len()];
@@ -198,8 +208,8 @@ impl Check for C15 {
                         for &dx in &dc {
                             for &dy in &dc {
                                 for &op in &ops {
-                                    for ctx in [false, true] {
-                                        if ctx && (dx.abs() > 1 || dy.abs() > 1) {
+                                    for ctx in [0u8, 1, 2, 3] {
+                                        if ctx != 0 && (dx.abs() > 1 || dy.abs() > 1) {
                                             continue;
                                         }
                                         let c = Case { sw, sh, dw, dh, r: [r0, r1, r2, r3], d: [dx, dy], op, ctx };
@@ -216,7 +226,7 @@ impl Check for C15 {
                                             Res::Skip => l.count("skipped_reference_undefined_nonseparable_overflow", 1),
                                             Res::Bad(v) => run.report(si, v),
                                         }
-                                        if si == 200 && r1 == 0 && r2 == 2 && r3 == 3 && dx == 1 && dy == -1 && !ctx && op == BOp::Copy {
+                                        if si == 200 && r1 == 0 && r2 == 2 && r3 == 3 && dx == 1 && dy == -1 && ctx == 0 && op == BOp::Copy {
                                             run.sample(case_str(&c));
                                         }
                                     }
@@ -240,7 +250,7 @@ impl Check for C15 {
                     for &dx in &ext {
                         for &dy in &ext {
                             for op in [BOp::Copy, BOp::Alpha(0.5)] {
-                                let c = Case { sw: 3, sh: 2, dw: 3, dh: 3, r: [r0, r1, r2, r3], d: [dx, dy], op, ctx: false };
+                                let c = Case { sw: 3, sh: 2, dw: 3, dh: 3, r: [r0, r1, r2, r3], d: [dx, dy], op, ctx: 0 };
                                 l.states += 1;
                                 l.transitions += 1;
                                 l.traces += 1;
@@ -279,7 +289,7 @@ impl Check for C15 {
                     (true, true) => ([0, 0, sw, sh], [dp, -sp]),
                 };
                 for op in [BOp::Copy, BOp::Alpha(0.5)] {
-                    let c = Case { sw, sh, dw, dh, r, d, op, ctx: false };
+                    let c = Case { sw, sh, dw, dh, r, d, op, ctx: 0 };
                     l.states += 1;
                     l.transitions += 1;
                     l.traces += 1;
@@ -312,7 +322,7 @@ impl Check for C15 {
                         for &db in &short {
                             let d = if dw > dh { [da, db] } else { [db, da] };
                             for op in [BOp::Copy, BOp::Alpha(0.5), BOp::Blend(BlendMode::Xor)] {
-                                let c = Case { sw, sh, dw, dh, r, d, op, ctx: false };
+                                let c = Case { sw, sh, dw, dh, r, d, op, ctx: 0 };
                                 l.states += 1;
                                 l.transitions += 1;
                                 l.traces += 1;
@@ -352,7 +362,7 @@ impl Check for C15 {
         if r.len() != 4 || d.len() != 2 {
             return Err("bad r/d".into());
         }
-        let c = Case { sw: kv_i(&m, "sw")? as i32, sh: kv_i(&m, "sh")? as i32, dw: kv_i(&m, "dw")? as i32, dh: kv_i(&m, "dh")? as i32, r: [r[0] as i32, r[1] as i32, r[2] as i32, r[3] as i32], d: [d[0] as i32, d[1] as i32], op, ctx: kv_i(&m, "ctx")? != 0 };
+        let c = Case { sw: kv_i(&m, "sw")? as i32, sh: kv_i(&m, "sh")? as i32, dw: kv_i(&m, "dw")? as i32, dh: kv_i(&m, "dh")? as i32, r: [r[0] as i32, r[1] as i32, r[2] as i32, r[3] as i32], d: [d[0] as i32, d[1] as i32], op, ctx: kv_i(&m, "ctx")? as u8 };
         Ok(match eval(&c) {
             Res::Bad(v) => Some(v),
             _ => None,
